@@ -32,12 +32,15 @@ PA == [cautious : B, pq : B, clean : B, ns : {"n", "s"}]
 PAUsed == {[cautious |-> "F", pq |-> "F", clean |-> "F", ns |-> "n"],
            [cautious |-> "T", pq |-> "T", clean |-> "F", ns |-> "n"],
            [cautious |-> "F", pq |-> "T", clean |-> "T", ns |-> "s"]}
-PNone == [cautious |-> NA, pq |-> NA, clean |-> NA, ns |-> NA]
+PNone == [cautious |-> NA, pq |-> NA, clean |-> NA, ns |-> NA, lay |-> NA]
+\* (lay: the layout keyword of parse(); a committed parse with it must not bind later parses)
 PKwUsed == {PNone,
-            [cautious |-> "T", pq |-> NA, clean |-> NA, ns |-> NA],
-            [cautious |-> "F", pq |-> "T", clean |-> NA, ns |-> NA],
-            [cautious |-> NA, pq |-> "T", clean |-> "T", ns |-> "s"],
-            [cautious |-> NA, pq |-> "F", clean |-> NA, ns |-> NA]}
+            [PNone EXCEPT !.cautious = "T"],
+            [PNone EXCEPT !.cautious = "F", !.pq = "T"],
+            [PNone EXCEPT !.pq = "T", !.clean = "T", !.ns = "s"],
+            [PNone EXCEPT !.pq = "F"],
+            [PNone EXCEPT !.lay = "copy_all"],
+            [PNone EXCEPT !.lay = "TR_desc_S", !.pq = "T"]}
 PEff(a, k) == [cautious |-> Ov(a.cautious, k.cautious), pq |-> Ov(a.pq, k.pq), clean |-> Ov(a.clean, k.clean),
                ns |-> Ov(a.ns, k.ns)]
 
